@@ -402,8 +402,10 @@ class Engine(ABC, DataDimensionality):
                 self.write_to_logs()
 
     def checkpoint_and_write_to_logs(self, iter_idx):
+        # Called when iteration `iter_idx` could not be completed: the state is the one reached after iteration
+        # `iter_idx - 1`, and resuming continues at `checkpoint iteration + 1`, so that iteration is not skipped.
         if iter_idx >= 5:
-            self.checkpointer.save(iter_idx)  # Save checkpoint at kill. # noqa
+            self.checkpointer.save(iter_idx - 1)  # Save checkpoint at kill. # noqa
         self.write_to_logs()
 
     def validation_loop(
